@@ -418,6 +418,9 @@ class Ombott:
             environ['wsgi.errors'].write(err)
             headers = [('Content-Type', 'text/html; charset=UTF-8')]
             start_response('500 INTERNAL SERVER ERROR', headers, sys.exc_info())
+            if environ.get('REQUEST_METHOD') == 'HEAD':
+                # a HEAD response never carries a body, the critical-error page included
+                return []
             return [tob(err)]
 
     def __call__(self, environ, start_response):
